@@ -104,7 +104,8 @@ def apply(c, act):
         elif via == 'connect_inputs':
             c.connect_inputs(other, **kw)
         elif via == 'extend_circuit':
-            c.extend_circuit(other, this_connectors=act.get('tc_arg'), other_connectors=act.get('oc_arg'), right_connect=act['right'], **kw)
+            c.extend_circuit(other, this_connectors=(list(act['tc_arg']) if 'tc_arg' in act else None),
+                             other_connectors=(list(act['oc_arg']) if 'oc_arg' in act else None), right_connect=act['right'], **kw)
         elif via == 'add_circuit':
             c.add_circuit(other, **kw)
         else:
